@@ -65,6 +65,7 @@ class CFG:
     def __init__(self, func: Func) -> None:
         self.func = func
         self.nodes: list[Node] = []
+        self._reach: list[Node] | None = None
         self.entry = self.new("entry")
         self.exit = self.new("exit")
         self.raise_exit = self.new("raise")
@@ -80,24 +81,26 @@ class CFG:
             a.succ.append((label, b))
             b.pred.append((label, a))
 
-    def reachable(self) -> set[Node]:
-        seen = {self.entry}
-        st = [self.entry]
-        while st:
-            n = st.pop()
-            for _, s in n.succ:
-                if s not in seen:
-                    seen.add(s)
-                    st.append(s)
-        return seen
+    def reachable(self) -> list[Node]:
+        """Reachable nodes in a deterministic order (construction order ~ source order)."""
+        if self._reach is None:
+            seen = {self.entry}
+            st = [self.entry]
+            while st:
+                n = st.pop()
+                for _, s in n.succ:
+                    if s not in seen:
+                        seen.add(s)
+                        st.append(s)
+            self._reach = sorted(seen, key=lambda n: n.id)
+        return self._reach
 
     def nodes_for(self, a: ast.AST) -> list[Node]:
         """CFG nodes (incl. finally copies) whose ast is *a*."""
         return [n for n in self.nodes if n.ast is a]
 
     def find(self, pred: Callable[[Node], bool]) -> list[Node]:
-        r = self.reachable()
-        return [n for n in self.nodes if n in r and pred(n)]
+        return [n for n in self.reachable() if pred(n)]
 
     def dump(self) -> str:
         out = []
